@@ -103,6 +103,15 @@ def cases(tier: str, seed: int) -> List[Dict[str, Any]]:
                 out.append({"forest": [[tau, fn, []]], "shape": [2, 3], "mode": mode, "seed": seed, "x_no_grad": True})
                 out.append({"forest": [[tau, fn, []], [tau, "tanh_linear", [[tau, fn, []]]]], "shape": [2, 3], "mode": mode, "seed": seed, "x_no_grad": True})
                 out.append({"forest": [[tau, "detached", []], [tau, fn, []]], "shape": [3], "mode": mode, "seed": seed, "x_no_grad": True})
+    # dtype coordinate: float16 / bfloat16 / float32 streams (one and two layers)
+    for dt_ in ("float16", "bfloat16", "float32"):
+        for tau in TAUS + [None]:
+            for fn in ("tanh", "linear", "double", "u_gelu"):
+                for mode in ("split_add", "apply"):
+                    out.append({"forest": [[tau, fn, []]], "shape": [2, 3], "mode": mode, "seed": seed, "dtype": dt_})
+                    if tau in (1e-3, 1e3):
+                        continue  # (products of extreme branch weights underflow the half-precision range)
+                    out.append({"forest": [[tau, fn, []], [tau, "tanh", [[tau, fn, []]]]], "shape": [3], "mode": mode, "seed": seed, "dtype": dt_})
     nmax = 3 if tier == "quick" else 4
     sub = list(itertools.product(SUB_TAUS, SUB_FNS))
     for n in range(2, nmax + 1):
@@ -193,6 +202,9 @@ def run_case(case: Dict[str, Any]) -> Dict[str, Any]:
     ident = f"{mode}|layers={count(forest)}|nested={int(any(k[2] for k in forest))}"
     mixed = any(fn == "to_float32" for _, fn in kinds(forest))  # float32 branch on a float64 stream
     vtol = 1e-6 if mixed else 1e-11  # the branch contribution is then only float32-accurate
+    if case.get("dtype"):
+        vtol = {"float16": 8e-3, "bfloat16": 6e-2, "float32": 1e-5}[case["dtype"]]
+        ident += f"|dtype={case['dtype']}"
     gmode = case.get("grad_mode")
     if gmode:
         ident += f"|{gmode}"
@@ -205,6 +217,9 @@ def run_case(case: Dict[str, Any]) -> Dict[str, Any]:
         g = torch.Generator().manual_seed(derive_seed(case["seed"], "C06", draw) % (2**31))
         x0 = torch.randn(shape, dtype=torch.float64, generator=g)
         gout = torch.randn(shape, dtype=torch.float64, generator=g)
+        if case.get("dtype"):
+            # a half-precision stream: implementation and closed form both run in that dtype
+            x0, gout = x0.to(getattr(torch, case["dtype"])), gout.to(getattr(torch, case["dtype"]))
         pairs: List[Any] = []  # (grad at branch output, grad at add output) holders
 
         store_i: List[Any] = []
